@@ -2,6 +2,7 @@ import Mathlib.AlgebraicGeometry.EllipticCurve.Jacobian.Point
 import Mathlib.Tactic.LinearCombination
 import Mathlib.Tactic.Ring
 import Mathlib.Data.ZMod.Basic
+import Mathlib.Algebra.Field.ZMod
 import Model.Common.EC
 /-
 C01-T1 ("L2 refines L2'"): btclib's Jacobian arithmetic (`Btc.EC.addJac`, `addJacAff`, `doubleJac`,
@@ -168,5 +169,183 @@ theorem neg_spec {a b : F} {P : Fin 3 → F} (hP : (swc a b).Nonsingular P) :
   exact ⟨Jacobian.nonsingular_neg hP, toAffine_neg hP⟩
 
 end Field
+
+/-! ## Part 2: from the `% p` integer code to `ZMod p` -/
+section Cast
+open Btc.EC
+
+variable (p : ℕ)
+
+/-- the coordinate-wise image of an integer triple in `ZMod p` -/
+def castJ (Q : JacPoint) : Fin 3 → ZMod p := ![(Q.1 : ZMod p), (Q.2.1 : ZMod p), (Q.2.2 : ZMod p)]
+
+@[simp] theorem castJ_0 (Q : JacPoint) : castJ p Q 0 = (Q.1 : ZMod p) := rfl
+@[simp] theorem castJ_1 (Q : JacPoint) : castJ p Q 1 = (Q.2.1 : ZMod p) := rfl
+@[simp] theorem castJ_2 (Q : JacPoint) : castJ p Q 2 = (Q.2.2 : ZMod p) := rfl
+
+variable {p}
+variable {c : CurveGroup} (hp : c.p = (p : ℤ))
+include hp
+
+theorem cast_emod (x : ℤ) : ((x % c.p : ℤ) : ZMod p) = (x : ZMod p) := by
+  rw [hp]; exact ZMod.intCast_mod x p
+
+theorem emod_eq_zero_iff (x : ℤ) : x % c.p = 0 ↔ (x : ZMod p) = 0 := by
+  rw [hp, ZMod.intCast_zmod_eq_zero_iff_dvd, Int.dvd_iff_emod_eq_zero]
+
+/-- a reduced value that is `0` in the field is the integer `0` -/
+theorem emod_eq_zero_of_cast (x : ℤ) (h : ((x % c.p : ℤ) : ZMod p) = 0) : x % c.p = 0 := by
+  rw [cast_emod hp] at h; exact (emod_eq_zero_iff hp x).mpr h
+
+/-! ### `add_jac` with both operands finite -/
+
+def coreV (c : CurveGroup) (Q R : JacPoint) : ℤ :=
+  (R.1 * (Q.2.2 * Q.2.2 % c.p) - Q.1 * (R.2.2 * R.2.2 % c.p) % c.p) % c.p
+
+def coreW (c : CurveGroup) (Q R : JacPoint) : ℤ :=
+  (R.2.1 * (Q.2.2 * Q.2.2 % c.p * Q.2.2 % c.p)
+    - Q.2.1 * (R.2.2 * R.2.2 % c.p * R.2.2 % c.p) % c.p) % c.p
+
+def coreChord (c : CurveGroup) (Q R : JacPoint) : JacPoint :=
+  let p := c.p
+  let M := Q.1 * (R.2.2 * R.2.2 % p) % p
+  let T := Q.2.1 * (R.2.2 * R.2.2 % p * R.2.2 % p) % p
+  let V := coreV c Q R
+  let W := coreW c Q R
+  let V2 := V * V % p
+  let V3 := V2 * V % p
+  let MV2 := M * V2 % p
+  let X := (W * W - V3 - 2 * MV2) % p
+  let Y := (W * (MV2 - X) - T * V3) % p
+  let Z := V * Q.2.2 % p * R.2.2 % p
+  (X, Y, Z)
+
+omit hp in
+theorem addJac_finite (c : CurveGroup) (Q R : JacPoint) (hQ : Q.2.2 ≠ 0) (hR : R.2.2 ≠ 0) :
+    addJac c Q R =
+      if coreV c Q R = 0 then
+        (if coreW c Q R = 0 then doubleJacHelper c Q (Q.2.2 * Q.2.2 % c.p) else INFJ)
+      else coreChord c Q R := by
+  simp only [addJac, hQ, hR, if_false, ne_eq, not_false_eq_true, and_true]
+  rfl
+
+omit hp in
+theorem addJac_inf_inf (c : CurveGroup) (Q R : JacPoint) (hQ : Q.2.2 = 0) (hR : R.2.2 = 0) :
+    addJac c Q R = INFJ := by
+  simp [addJac, hQ, hR]
+
+omit hp in
+theorem addJac_inf_left (c : CurveGroup) (Q R : JacPoint) (hQ : Q.2.2 = 0) (hR : R.2.2 ≠ 0) :
+    addJac c Q R = R := by
+  simp [addJac, hQ, hR]
+
+omit hp in
+theorem addJac_inf_right (c : CurveGroup) (Q R : JacPoint) (hQ : Q.2.2 ≠ 0) (hR : R.2.2 = 0) :
+    addJac c Q R = Q := by
+  simp [addJac, hQ, hR]
+
+variable [Fact p.Prime]
+
+theorem coreV_cast (Q R : JacPoint) :
+    ((coreV c Q R : ℤ) : ZMod p) = chordV (castJ p Q) (castJ p R) := by
+  simp only [coreV, chordV, castJ_0, castJ_2, cast_emod hp, Int.cast_sub, Int.cast_mul]
+  ring
+
+theorem coreW_cast (Q R : JacPoint) :
+    ((coreW c Q R : ℤ) : ZMod p) = chordW (castJ p Q) (castJ p R) := by
+  simp only [coreW, chordW, castJ_1, castJ_2, cast_emod hp, Int.cast_sub, Int.cast_mul]
+  ring
+
+theorem coreV_eq_zero_iff (Q R : JacPoint) :
+    coreV c Q R = 0 ↔ chordV (castJ p Q) (castJ p R) = 0 := by
+  rw [← coreV_cast hp]
+  constructor
+  · intro h; rw [h]; exact Int.cast_zero
+  · intro h; rw [coreV] at h ⊢; exact emod_eq_zero_of_cast hp _ h
+
+theorem coreW_eq_zero_iff (Q R : JacPoint) :
+    coreW c Q R = 0 ↔ chordW (castJ p Q) (castJ p R) = 0 := by
+  rw [← coreW_cast hp]
+  constructor
+  · intro h; rw [h]; exact Int.cast_zero
+  · intro h; rw [coreW] at h ⊢; exact emod_eq_zero_of_cast hp _ h
+
+theorem coreChord_cast (Q R : JacPoint) :
+    castJ p (coreChord c Q R) = chord (castJ p Q) (castJ p R) := by
+  have h0 : ((coreChord c Q R).1 : ZMod p) = chordX (castJ p Q) (castJ p R) := by
+    simp only [coreChord, chordX, cast_emod hp, Int.cast_sub, Int.cast_mul, Int.cast_ofNat,
+      coreV_cast hp, coreW_cast hp, castJ_0, castJ_2]
+    ring
+  have h1 : ((coreChord c Q R).2.1 : ZMod p) = chordY (castJ p Q) (castJ p R) := by
+    simp only [coreChord, chordY, chordX, cast_emod hp, Int.cast_sub, Int.cast_mul,
+      Int.cast_ofNat, coreV_cast hp, coreW_cast hp, castJ_0, castJ_1, castJ_2]
+    ring
+  have h2 : ((coreChord c Q R).2.2 : ZMod p) = chordZ (castJ p Q) (castJ p R) := by
+    simp only [coreChord, chordZ, cast_emod hp, Int.cast_mul, coreV_cast hp, castJ_2]
+  rw [castJ, chord, h0, h1, h2]
+
+/-! ### `_double_jac_helper`: the three spellings of `a·Z⁴` -/
+
+theorem cast_a_minus_3 (ha : c.a = c.p - 3) : ((c.a : ℤ) : ZMod p) = -3 := by
+  rw [ha, hp]; simp
+
+theorem doubleJacHelper_cast (Q : JacPoint) (QZ2 : ℤ)
+    (hz : c.a = 0 ∨ (QZ2 : ZMod p) = (Q.2.2 : ZMod p) ^ 2) :
+    castJ p (doubleJacHelper c Q QZ2) = dbl (c.a : ZMod p) (castJ p Q) := by
+  obtain ⟨X1, Y1, Z1⟩ := Q
+  have hW : (((if c.a = 0 then 3 * X1 * X1 % c.p
+        else if c.a = c.p - 3 then 3 * (X1 - QZ2) * (X1 + QZ2) % c.p
+        else (3 * X1 * X1 + c.a * QZ2 * QZ2) % c.p : ℤ)) : ZMod p)
+      = dblW (c.a : ZMod p) (castJ p (X1, Y1, Z1)) := by
+    by_cases h0 : c.a = 0
+    · simp only [h0, if_true, dblW, cast_emod hp, Int.cast_mul, Int.cast_ofNat, castJ_0,
+        Int.cast_zero]
+      ring
+    · have hz' : (QZ2 : ZMod p) = (Z1 : ZMod p) ^ 2 := by
+        rcases hz with h | h
+        · exact absurd h h0
+        · exact h
+      by_cases h3 : c.a = c.p - 3
+      · simp only [h0, if_false, if_pos h3, dblW, cast_emod hp, Int.cast_mul, Int.cast_ofNat,
+          Int.cast_sub, Int.cast_add, castJ_0, castJ_2, hz', cast_a_minus_3 hp h3]
+        ring
+      · simp only [h0, h3, if_false, dblW, cast_emod hp, Int.cast_mul, Int.cast_ofNat,
+          Int.cast_add, castJ_0, castJ_2, hz']
+        ring
+  have h0 : ((doubleJacHelper c (X1, Y1, Z1) QZ2).1 : ZMod p)
+      = dblX (c.a : ZMod p) (castJ p (X1, Y1, Z1)) := by
+    simp only [doubleJacHelper, dblX, dblV, cast_emod hp, Int.cast_sub, Int.cast_mul,
+      Int.cast_ofNat, hW, castJ_0, castJ_1]
+    ring
+  have h1 : ((doubleJacHelper c (X1, Y1, Z1) QZ2).2.1 : ZMod p)
+      = dblY (c.a : ZMod p) (castJ p (X1, Y1, Z1)) := by
+    simp only [doubleJacHelper, dblY, dblX, dblV, cast_emod hp, Int.cast_sub, Int.cast_mul,
+      Int.cast_ofNat, hW, castJ_0, castJ_1]
+    ring
+  have h2 : ((doubleJacHelper c (X1, Y1, Z1) QZ2).2.2 : ZMod p)
+      = dblZ (castJ p (X1, Y1, Z1)) := by
+    simp only [doubleJacHelper, dblZ, cast_emod hp, Int.cast_mul, Int.cast_ofNat, castJ_1,
+      castJ_2]
+  rw [castJ, dbl, h0, h1, h2]
+
+/-- the `Z` returned by the doubling is reduced: `0` in the field ⇒ the integer `0` -/
+theorem doubleJacHelper_Z_reduced (Q : JacPoint) (QZ2 : ℤ)
+    (h : ((doubleJacHelper c Q QZ2).2.2 : ZMod p) = 0) : (doubleJacHelper c Q QZ2).2.2 = 0 := by
+  obtain ⟨X1, Y1, Z1⟩ := Q
+  exact emod_eq_zero_of_cast hp _ h
+
+theorem coreChord_Z_reduced (Q R : JacPoint)
+    (h : ((coreChord c Q R).2.2 : ZMod p) = 0) : (coreChord c Q R).2.2 = 0 :=
+  emod_eq_zero_of_cast hp _ h
+
+theorem doubleJac_eq (Q : JacPoint) :
+    castJ p (doubleJac c Q) = dbl (c.a : ZMod p) (castJ p Q) := by
+  rw [doubleJac]
+  apply doubleJacHelper_cast hp
+  by_cases h0 : c.a = 0
+  · exact Or.inl h0
+  · right; simp only [h0, if_false, cast_emod hp, Int.cast_mul]; ring
+
+end Cast
 
 end Btc.C01
